@@ -236,7 +236,7 @@ impl Prop for C18 {
          the last flag byte; values arbitrary: f32 by bit pattern incl. NaN payloads, colours any bytes, strings Shift-JIS-lossless incl. empty) is serialized, re-read with BinArchive::from_bytes + AssetBinary::from_archive and compared field by field incl. every presence flag \
          (f32 via to_bits; absent typed fields must read back as the default); re-serializing must give identical bytes; walking the data region with the independent reader, each record must occupy exactly the bytes its flags announce \
          ((4 or 8) + 4 + 4 per set bit), the short form must be used iff no extended field is present, and the region must end with the 4-byte terminator. Bounded-exhaustive: all-absent, all-present, each single field alone, each single field missing from all-present, each adjacent pair, \
-         each as the middle spec of a 3-spec file and alone. 1 case in 400 has 257..=300 specs; 1 string in ~300 is up to 36 KiB long. Non-trivial: a spec with >= 1 extended field and another field after it, or an all-absent/name-only spec inside a list. Distinct = distinct case value."
+         each as the middle spec of a 3-spec file and alone. 1 case in 400 has 257..=300 specs; 1 string in ~300 is up to 36 KiB long. The re-read value is then edited through its public fields (first set / spec moved to the end, meta, one clip name or the header flags changed) and must round-trip again (edited-value-round-trip). Non-trivial: a spec with >= 1 extended field and another field after it, or an all-absent/name-only spec inside a list. Distinct = distinct case value."
             .into()
     }
     fn assumptions() -> Vec<String> {
@@ -359,6 +359,30 @@ impl Prop for C18 {
                 return;
             }
             None => return,
+        }
+        // the re-read value, edited through its public fields, is a value like any other: nothing remembered from the parse may leak
+        // into its serialization (header flags changed, first spec moved to the end)
+        {
+            let mut edited = back;
+            edited.flags = case.flags ^ 0x0101;
+            if !edited.specs.is_empty() {
+                let s = edited.specs.remove(0);
+                edited.specs.push(s);
+            }
+            let again = match cx.call(|| edited.serialize().and_then(|b| BinArchive::from_bytes(&b, Endian::Little)).and_then(|ar| AssetBinary::from_archive(&ar))) {
+                Some(Ok(b)) => b,
+                Some(Err(e)) => {
+                    cx.fail("edited-value-round-trip", format!("serializing and re-reading the edited re-read value failed: {e}"));
+                    return;
+                }
+                None => return,
+            };
+            let same = again.flags == edited.flags && again.specs.len() == edited.specs.len() && again.specs.iter().zip(edited.specs.iter()).all(|(g, w)| from_spec(g) == from_spec(w));
+            if !cx.check(same, "edited-value-round-trip", || {
+                format!("after moving the first spec to the end and changing the flags of the re-read value, serialize + re-read gives flags {:#x} (expected {:#x}) and names {:?} (expected {:?})", again.flags, edited.flags, again.specs.iter().map(|s| s.name.clone()).collect::<Vec<_>>(), edited.specs.iter().map(|s| s.name.clone()).collect::<Vec<_>>())
+            }) {
+                return;
+            }
         }
         // record walk over the data region
         let img = match refbin::parse(&bytes, false) {
